@@ -14,10 +14,28 @@
 //!     small fees/CLTV, no binding limit): payee reachable => find_route succeeds. In the general
 //!     regime a budgeted exhaustive search decides whether a feasible single path exists; failures
 //!     there are tallied (known finding F3, pinned witnesses re-run from files).
+//!  V7 Route::get_total_fees equals the hop fees (including the fees paid for blinded tails) plus the
+//!     amount delivered above the request
+//!
+//! Blinded payees (`PaymentParameters::blinded`): a path ends in a `blinded_tail` that must be one of the
+//! supplied blinded payment paths (same blinding point and hops, not one of
+//! `previously_failed_blinded_path_idxs`); the unblinded hops form a connected chain payer -> introduction
+//! node; `final_value_msat` is what the recipient gets; the last unblinded hop's `fee_msat` is the fee paid
+//! for the whole blinded path and must be >= fee_base + floor(final_value * fee_prop / 1e6) (the rounding of
+//! the library's `compute_fees`; never less, rounding up is not demanded); payinfo.htlc_minimum <=
+//! final_value, and the final values of all parts using one blinded path together <= payinfo.htlc_maximum
+//! (apart from raised amounts); total CLTV = unblinded hops + payinfo.cltv_expiry_delta + excess final
+//! delta <= max_total_cltv_expiry_delta. For one-hop blinded paths (the introduction node is the
+//! recipient) nobody forwards inside the blinded path, so the payinfo (fee, limits, CLTV) is not enforced:
+//! the library documents that it ignores it there; deviations are counted as observations.
+//! Route hints may be 1-3 hops long; each hint hop is an independent private edge src -> next node. A hint
+//! hop naming the scid of an announced channel is accepted under either reading (see `validate`).
 use bins::{pk, EnvLogger, NullLogger};
 use bitcoin::constants::ChainHash;
 use bitcoin::secp256k1::PublicKey;
 use bitcoin::{Amount, Network, TxOut};
+use lightning::blinded_path::payment::{BlindedPayInfo, BlindedPaymentPath};
+use lightning::blinded_path::BlindedHop;
 use lightning::ln::chan_utils::make_funding_redeemscript;
 use lightning::ln::channel_state::{ChannelCounterparty, ChannelDetails};
 use lightning::ln::msgs::{UnsignedChannelAnnouncement, UnsignedChannelUpdate};
@@ -26,11 +44,11 @@ use lightning::routing::gossip::{NetworkGraph, NodeId};
 use lightning::routing::router::{find_route, InFlightHtlcs, PaymentParameters, Route, RouteHint, RouteHintHop, RouteParameters, ScorerAccountingForInFlightHtlcs};
 use lightning::routing::scoring::{FixedPenaltyScorer, ProbabilisticScorer, ProbabilisticScoringDecayParameters, ProbabilisticScoringFeeParameters, ScoreUpdate};
 use lightning::routing::utxo::{UtxoLookup, UtxoResult};
-use lightning::types::features::{Bolt11InvoiceFeatures, ChannelFeatures, InitFeatures};
+use lightning::types::features::{BlindedHopFeatures, Bolt11InvoiceFeatures, Bolt12InvoiceFeatures, ChannelFeatures, InitFeatures};
 use lightning::types::routing::RoutingFees;
 use lightning::util::wakers::Notifier;
 use std::collections::{BTreeMap, HashMap};
-use std::sync::Arc;
+use std::sync::{Arc, OnceLock};
 use vcore::{Args, Fnv, Json, Report, Rng};
 
 #[derive(Clone, Copy, Debug, PartialEq)]
@@ -63,6 +81,48 @@ struct HintHop {
 	scid: u64,
 	pol: Pol,
 }
+/// One blinded payment path offered by a blinded payee.
+#[derive(Clone, Debug)]
+struct BlindedSpec {
+	intro: usize,
+	n_hops: usize, // blinded_hops.len(); 1 = the introduction node is the recipient
+	base: u32,
+	prop: u32,
+	cltv: u16,
+	min: u64,
+	max: u64,
+	id: u64, // selects the blinding point / blinded node ids (unique within a query)
+}
+impl BlindedSpec {
+	fn one_hop(&self) -> bool {
+		self.n_hops == 1
+	}
+	/// What the oracle enforces for the blinded part: the payinfo, except for one-hop paths where nobody
+	/// forwards inside the blinded path (the library documents that it ignores the payinfo there).
+	fn pol(&self) -> Pol {
+		if self.one_hop() {
+			Pol { enabled: true, cltv: 0, min: 0, max: u64::MAX, base: 0, prop: 0 }
+		} else {
+			Pol { enabled: true, cltv: self.cltv, min: self.min, max: self.max, base: self.base, prop: self.prop }
+		}
+	}
+}
+/// The blinded payee as a node of the reference searches.
+const VP: usize = usize::MAX;
+const BLINDED_EDGE_BASE: u64 = u64::MAX - 64;
+const BLINDED_IDS: u64 = 16;
+
+fn blinded_keys() -> &'static Vec<PublicKey> {
+	static K: OnceLock<Vec<PublicKey>> = OnceLock::new();
+	K.get_or_init(|| (0..BLINDED_IDS * 4).map(|i| pk(0xB11D_ED, i + 1)).collect())
+}
+fn blinded_path(sp: &BlindedSpec, keys: &[PublicKey]) -> BlindedPaymentPath {
+	let bk = blinded_keys();
+	let b = (sp.id % BLINDED_IDS) as usize * 4;
+	let hops = (0..sp.n_hops.min(3)).map(|h| BlindedHop { blinded_node_id: bk[b + 1 + h], encrypted_payload: vec![sp.id as u8; 3 + h] }).collect();
+	BlindedPaymentPath::from_blinded_path_and_payinfo(keys[sp.intro], bk[b], hops, BlindedPayInfo { fee_base_msat: sp.base, fee_proportional_millionths: sp.prop, cltv_expiry_delta: sp.cltv, htlc_minimum_msat: sp.min, htlc_maximum_msat: sp.max, features: BlindedHopFeatures::empty() })
+}
+
 /// Everything that defines one generated network.
 #[derive(Clone, Debug)]
 struct Scenario {
@@ -81,6 +141,8 @@ struct Query {
 	mpp: bool,
 	first: Option<Vec<FirstHop>>,
 	hints: Vec<Vec<HintHop>>,
+	blinded: Vec<BlindedSpec>, // non-empty = the payee is blinded (`payee` is then unused)
+	failed_blinded: Vec<u64>,
 	final_cltv: u32,
 	max_path_count: Option<u8>,
 	max_path_length: Option<u8>,
@@ -191,50 +253,169 @@ impl Scenario {
 }
 
 impl Query {
+	/// The node the reference searches start from (they walk backwards, like the router).
+	fn target(&self) -> usize {
+		if self.blinded.is_empty() {
+			self.payee
+		} else {
+			VP
+		}
+	}
 	fn gen(sc: &Scenario, rng: &mut Rng) -> Query {
 		let n = sc.n_public;
 		let payer = rng.below(n as u64) as usize;
-		let private_payee = sc.n_extra > 0 && rng.chance(1, 4);
+		let blinded_payee = rng.chance(3, 10);
+		// outside the slack regime: blinded paths with modest fees and limits around a fraction of the amount,
+		// preferably right behind generous first hops, so that multi-part routes over several blinded paths
+		// (and several parts over one blinded path) actually come about
+		let friendly = blinded_payee && !sc.slack && rng.chance(1, 3);
+		let private_payee = !blinded_payee && sc.n_extra > 0 && rng.chance(1, 4);
 		let mut payee = if private_payee { n + rng.below(sc.n_extra as u64) as usize } else { rng.below(n as u64) as usize };
 		if payee == payer {
 			payee = (payer + 1) % n;
 		}
 		let amt = if sc.slack { *rng.pick(&[1u64, 1000, 50_000, 1_000_000, 20_000_000]) + rng.below(1000) } else { *rng.pick(&[1u64, 999, 1000, 50_000, 1_000_000, 20_000_000, 400_000_000, 3_000_000_000, 40_000_000_000]) + rng.below(1000) };
 		let mut first = None;
-		if rng.chance(1, 3) {
+		if friendly {
+			// two to four first hops towards one or two peers, limits around a fraction of the amount
+			let pool: Vec<usize> = (0..1 + rng.below(2))
+				.map(|_| {
+					let p = if sc.n_extra > 0 && rng.chance(1, 6) { n + rng.below(sc.n_extra as u64) as usize } else { rng.below(n as u64) as usize };
+					if p == payer {
+						(p + 1) % n
+					} else {
+						p
+					}
+				})
+				.collect();
+			let mut v = vec![];
+			for k in 0..2 + rng.below(3) {
+				v.push(FirstHop { scid: 500_000 + k, peer: pool[rng.below(pool.len() as u64) as usize], limit: *rng.pick(&[amt / 2 + 1, amt / 2 + 1, amt / 3 + 1, amt, 100_000_000_000]) + *rng.pick(&[0u64, 0, 2000]), min: rng.below(2) });
+			}
+			first = Some(v);
+		} else if rng.chance(1, 3) {
 			let mut v = vec![];
 			for k in 0..1 + rng.below(4) {
-				let mut peer = rng.below(n as u64) as usize;
+				// peers are announced nodes or, sometimes, nodes the graph does not know (reachable only this way)
+				let mut peer = if sc.n_extra > 0 && rng.chance(1, 6) { n + rng.below(sc.n_extra as u64) as usize } else { rng.below(n as u64) as usize };
 				if peer == payer {
 					peer = (peer + 1) % n;
 				}
-				let (limit, min) = if sc.slack { (amt * 1000 + 1_000_000, rng.below(2)) } else { (*rng.pick(&[amt, amt / 2 + 1, amt * 2, amt + amt / 50 + 60_000, 100_000_000_000]), *rng.pick(&[0u64, 1, 1000, amt / 2])) };
+				let (limit, min) = if sc.slack {
+					(amt * 1000 + 1_000_000, rng.below(2))
+				} else { (*rng.pick(&[amt, amt / 2 + 1, amt * 2, amt + amt / 50 + 60_000, 100_000_000_000]), *rng.pick(&[0u64, 1, 1000, amt / 2])) };
 				v.push(FirstHop { scid: 500_000 + k, peer, limit, min });
 			}
 			first = Some(v);
 		}
+		let mut blinded: Vec<BlindedSpec> = vec![];
+		let mut failed_blinded = vec![];
+		if blinded_payee {
+			let k = 1 + rng.below(4) as usize;
+			let id0 = rng.below(BLINDED_IDS / 4) * 4;
+			let peers: Vec<usize> = first.iter().flatten().map(|f| f.peer).collect();
+			for j in 0..k {
+				let n_hops = if friendly { *rng.pick(&[1usize, 2, 2, 2, 2, 3, 3, 3]) } else { *rng.pick(&[1usize, 2, 2, 3]) };
+				let mut intro = match rng.below(8) {
+					0 if !friendly => payer,
+					1 | 2 if !peers.is_empty() => peers[rng.below(peers.len() as u64) as usize],
+					3..=6 if friendly && !peers.is_empty() => peers[rng.below(peers.len() as u64) as usize],
+					3 if sc.n_extra > 0 => n + rng.below(sc.n_extra as u64) as usize,
+					_ => rng.below(n as u64) as usize,
+				};
+				if j > 0 && rng.chance(1, 4) {
+					intro = blinded[rng.below(j as u64) as usize].intro; // two paths sharing one introduction node
+				}
+				if n_hops == 1 {
+					// the library refuses requests whose one-hop blinded paths name different nodes: mostly keep them aligned
+					if let Some(o) = blinded.iter().find(|b| b.n_hops == 1) {
+						if !rng.chance(1, 8) {
+							intro = o.intro;
+						}
+					}
+				}
+				let sp = if sc.slack {
+					BlindedSpec { intro, n_hops, base: *rng.pick(&[0u32, 1, 1000]), prop: *rng.pick(&[0u32, 1, 100, 1000]), cltv: rng.below(41) as u16, min: rng.below(2), max: *rng.pick(&[u64::MAX, amt, amt + 1, amt * 1000 + 1_000_000]), id: id0 + j as u64 }
+				} else if friendly {
+					BlindedSpec { intro, n_hops, base: *rng.pick(&[0u32, 1, 1000]), prop: *rng.pick(&[0u32, 100, 10_000]), cltv: *rng.pick(&[0u16, 18, 40, 144]), min: rng.below(2), max: *rng.pick(&[amt / 2 + 1, amt / 2 + 1, amt / 3 + 1, amt / 4 + 1, amt, amt, u64::MAX]), id: id0 + j as u64 }
+				} else {
+					BlindedSpec {
+						intro,
+						n_hops,
+						base: *rng.pick(&[0u32, 0, 1, 1000, 1000, 50_000, u32::MAX]),
+						prop: *rng.pick(&[0u32, 0, 1, 100, 100, 10_000, 500_000, 1_000_000, u32::MAX]),
+						cltv: *rng.pick(&[0u16, 18, 40, 40, 144, 144, 500, 920, 1000, u16::MAX]),
+						min: *rng.pick(&[0u64, 0, 1, 1, 1000, amt.saturating_sub(1), amt, amt + 1, amt * 2, amt * 3, amt * 3 + 1]),
+						max: *rng.pick(&[u64::MAX, u64::MAX, amt * 3 + 7, amt, amt, amt.saturating_sub(1), amt / 2 + 1, amt / 2 + 1, amt / 3 + 1, amt / 4 + 1, 0]),
+						id: id0 + j as u64,
+					}
+				};
+				blinded.push(sp);
+			}
+			if rng.chance(1, 5) {
+				for _ in 0..1 + rng.below(2) {
+					failed_blinded.push(rng.below(k as u64 + 1)); // may also name an index one past the end
+				}
+			}
+		}
 		let mut hints: Vec<Vec<HintHop>> = vec![];
-		if private_payee || rng.chance(1, 5) {
+		if !blinded_payee && (private_payee || rng.chance(1, 5)) {
+			// public channels ending at the payee: a hint may name one of them
+			let at_payee: Vec<(u64, usize)> = sc.chans.iter().filter(|(_, c)| c.a == payee || c.b == payee).map(|(s, c)| (*s, if c.a == payee { c.b } else { c.a })).collect();
 			for k in 0..1 + rng.below(3) {
-				let src = rng.below(n as u64) as usize;
-				if src == payee {
+				let len = if rng.chance(1, 2) { 1 } else { 2 + rng.below(2) as usize };
+				// chain of private channels nodes[0] -> nodes[1] -> .. -> payee
+				let mut nodes: Vec<usize> = vec![];
+				for h in 0..len {
+					let v = if h == 0 && rng.chance(1, 8) {
+						payer // a hint starting at the payer itself
+					} else if h > 0 && sc.n_extra > 0 && rng.chance(1, 2) {
+						n + rng.below(sc.n_extra as u64) as usize
+					} else {
+						rng.below(n as u64) as usize
+					};
+					nodes.push(v);
+				}
+				nodes.push(payee);
+				let mut scids: Vec<u64> = (0..len as u64).map(|h| 900_000 + k * 8 + h).collect();
+				if rng.chance(1, 5) && !sc.chans.is_empty() {
+					// the last hop names an announced channel: consistently (the channel really connects that node
+					// to the payee) or not (any announced scid)
+					if !at_payee.is_empty() && rng.chance(2, 3) {
+						let (s, other) = at_payee[rng.below(at_payee.len() as u64) as usize];
+						scids[len - 1] = s;
+						nodes[len - 1] = other;
+					} else {
+						scids[len - 1] = 1000 + rng.below(sc.chans.len() as u64);
+					}
+				}
+				// the library refuses hints whose source is the payee; a hop to itself is meaningless; two hints
+				// describing one scid differently would leave open which description counts
+				if (0..len).any(|h| nodes[h] == payee || nodes[h] == nodes[h + 1]) || hints.iter().flatten().any(|x| scids.contains(&x.scid)) {
 					continue;
 				}
-				let p = if sc.slack { Pol { enabled: true, cltv: 10 + rng.below(30) as u16, min: rng.below(2), max: u64::MAX, base: *rng.pick(&[0u32, 1000]), prop: *rng.pick(&[0u32, 100]) } } else { Pol { enabled: true, cltv: 40 + rng.below(40) as u16, min: *rng.pick(&[0u64, 1, 1000, 2_000_000]), max: *rng.pick(&[u64::MAX, amt, amt * 3 + 7, amt / 2 + 1]), base: *rng.pick(&[0u32, 1000, 30_000]), prop: *rng.pick(&[0u32, 100, 20_000]) } };
-				hints.push(vec![HintHop { src, dst: payee, scid: 900_000 + k, pol: p }]);
+				let mut hint = vec![];
+				for h in 0..len {
+					let p = if sc.slack { Pol { enabled: true, cltv: 10 + rng.below(30) as u16, min: rng.below(2), max: u64::MAX, base: *rng.pick(&[0u32, 1000]), prop: *rng.pick(&[0u32, 100]) } } else { Pol { enabled: true, cltv: 40 + rng.below(40) as u16, min: *rng.pick(&[0u64, 1, 1000, 2_000_000]), max: *rng.pick(&[u64::MAX, amt, amt * 3 + 7, amt / 2 + 1]), base: *rng.pick(&[0u32, 1000, 30_000]), prop: *rng.pick(&[0u32, 100, 20_000]) } };
+					hint.push(HintHop { src: nodes[h], dst: nodes[h + 1], scid: scids[h], pol: p });
+				}
+				hints.push(hint);
 			}
 		}
 		let final_cltv = 18 + rng.below(100) as u32;
-		let mpp = rng.chance(1, 2);
-		let mut q = Query { payer, payee, amt, mpp, first, hints, final_cltv, max_path_count: None, max_path_length: None, max_total_cltv: None, saturation: None, excluded: vec![], fee_limit: None, scorer_mode: rng.below(4), fixed_penalty: *rng.pick(&[0u64, 500, 100_000]), seed_bytes: rng.bytes() };
+		let mpp = rng.chance(1, 2) || (friendly && rng.chance(3, 4));
+		let mut q = Query { payer, payee, amt, mpp, first, hints, blinded, failed_blinded, final_cltv, max_path_count: None, max_path_length: None, max_total_cltv: None, saturation: None, excluded: vec![], fee_limit: None, scorer_mode: rng.below(4), fixed_penalty: *rng.pick(&[0u64, 500, 100_000]), seed_bytes: rng.bytes() };
 		if rng.chance(1, 3) {
 			q.saturation = Some(rng.below(4) as u8);
 		}
 		if rng.chance(1, 5) && !sc.chans.is_empty() {
 			for _ in 0..1 + rng.below(3) {
-				// previously failed channels of every kind: announced, route-hint, payer's own first hops
+				// previously failed channels of every kind: announced, route-hint (any hop), payer's own first hops
 				let pick = match rng.below(4) {
-					0 if !q.hints.is_empty() => q.hints[rng.below(q.hints.len() as u64) as usize][0].scid,
+					0 if !q.hints.is_empty() => {
+						let h = &q.hints[rng.below(q.hints.len() as u64) as usize];
+						h[rng.below(h.len() as u64) as usize].scid
+					},
 					1 if q.first.as_ref().map(|f| !f.is_empty()).unwrap_or(false) => {
 						let f = q.first.as_ref().unwrap();
 						f[rng.below(f.len() as u64) as usize].scid
@@ -257,6 +438,10 @@ impl Query {
 			}
 			if rng.chance(1, 4) {
 				q.max_total_cltv = Some(final_cltv + rng.below(400) as u32);
+				if !q.blinded.is_empty() && rng.chance(1, 2) {
+					// around the blinded path's own delta (the library keeps 80 blocks back for the shadow offset when it can)
+					q.max_total_cltv = Some(q.blinded[0].cltv as u32 + *rng.pick(&[0u32, 1, 40, 79, 80, 81, 200]));
+				}
 			}
 			q.fee_limit = match rng.below(4) {
 				0 => Some(None),
@@ -264,6 +449,10 @@ impl Query {
 				2 => Some(Some(0)),
 				_ => None,
 			};
+			if friendly && rng.chance(1, 2) {
+				q.fee_limit = Some(None);
+				q.max_total_cltv = None;
+			}
 		}
 		q
 	}
@@ -272,7 +461,18 @@ impl Query {
 		if self.mpp {
 			feats.set_basic_mpp_optional();
 		}
-		let mut pp = PaymentParameters::from_node_id(keys[self.payee], self.final_cltv).with_bolt11_features(feats).unwrap();
+		let mut pp = if self.blinded.is_empty() {
+			PaymentParameters::from_node_id(keys[self.payee], self.final_cltv).with_bolt11_features(feats).unwrap()
+		} else {
+			let mut pp = PaymentParameters::blinded(self.blinded.iter().map(|b| blinded_path(b, keys)).collect());
+			if self.mpp {
+				let mut f = Bolt12InvoiceFeatures::empty();
+				f.set_basic_mpp_optional();
+				pp = pp.with_bolt12_features(f).unwrap();
+			}
+			pp.previously_failed_blinded_path_idxs = self.failed_blinded.clone();
+			pp
+		};
 		let rhints: Vec<RouteHint> = self
 			.hints
 			.iter()
@@ -302,7 +502,7 @@ impl Query {
 	}
 	fn describe(&self, sc: &Scenario, gi: u64) -> String {
 		format!(
-			"graph={} slack={} nodes={}+{} chans={} payer={} payee={} amt={} mpp={} first={} hints={} fee_limit={:?} max_paths={:?} max_len={:?} max_cltv={:?} saturation={:?} excluded={:?} scorer={}",
+			"graph={} slack={} nodes={}+{} chans={} payer={} payee={} amt={} mpp={} first={} hints={:?} blinded={} failed_blinded={:?} fee_limit={:?} max_paths={:?} max_len={:?} max_cltv={:?} saturation={:?} excluded={:?} scorer={}",
 			gi,
 			sc.slack,
 			sc.n_public,
@@ -313,7 +513,9 @@ impl Query {
 			self.amt,
 			self.mpp,
 			self.first.as_ref().map(|f| f.len() as i64).unwrap_or(-1),
-			self.hints.len(),
+			self.hints.iter().map(|h| h.len()).collect::<Vec<_>>(),
+			self.blinded.iter().map(|b| format!("[intro {} hops {} base {} prop {} cltv {} min {} max {}]", b.intro, b.n_hops, b.base, b.prop, b.cltv, b.min, b.max)).collect::<Vec<_>>().join(""),
+			self.failed_blinded,
 			self.fee_limit,
 			self.max_path_count,
 			self.max_path_length,
@@ -367,6 +569,19 @@ fn first_hop_details(fh: &FirstHop, peer: PublicKey, idx: u64) -> ChannelDetails
 /// Edges usable for forwarding into `node`: (from, policy (None = payer's first hop), max, min, scid)
 fn edges_into(sc: &Scenario, q: &Query, node: usize) -> Vec<(usize, Option<Pol>, u64, u64, u64)> {
 	let mut edges = vec![];
+	if node == VP {
+		// the blinded paths lead from their introduction nodes to the payee. Paths starting at the payer
+		// itself are not usable by the library (a path needs at least one unblinded hop) and previously
+		// failed ones must not be used.
+		for (i, sp) in q.blinded.iter().enumerate() {
+			if sp.intro == q.payer || q.failed_blinded.contains(&(i as u64)) {
+				continue;
+			}
+			let p = sp.pol();
+			edges.push((sp.intro, Some(p), p.max, p.min, BLINDED_EDGE_BASE + i as u64));
+		}
+		return edges;
+	}
 	if let Some(fhs) = &q.first {
 		for fh in fhs.iter().filter(|f| f.peer == node && !q.excluded.contains(&f.scid)) {
 			edges.push((q.payer, None, fh.limit, fh.min, fh.scid));
@@ -387,7 +602,9 @@ fn edges_into(sc: &Scenario, q: &Query, node: usize) -> Vec<(usize, Option<Pol>,
 			}
 		}
 	}
-	for hop in q.hints.iter().flat_map(|h| h.iter()).filter(|x| x.dst == node && !q.excluded.contains(&x.scid)) {
+	// every hint hop is an independent private edge. Hops naming an announced channel's scid are left out
+	// here: the library then takes the announced channel's data instead (the searches stay conservative).
+	for hop in q.hints.iter().flat_map(|h| h.iter()).filter(|x| x.dst == node && !q.excluded.contains(&x.scid) && !sc.chans.contains_key(&x.scid)) {
 		edges.push((hop.src, Some(hop.pol), hop.pol.max, hop.pol.min, hop.scid));
 	}
 	edges
@@ -417,9 +634,13 @@ fn feasible(sc: &Scenario, q: &Query, node: usize, amt: u64, len_left: usize, vi
 			Some(p) => p,
 			None => continue,
 		};
+		if node == VP && p.cltv > 144 {
+			continue; // the search does not track CLTV totals: leave out blinded paths that could hit the limit
+		}
 		let need = amt + fee_for(&p, amt);
 		visited.push(from);
-		let r = feasible(sc, q, from, need, len_left - 1, visited, budget, trail);
+		// a blinded tail does not count towards the path length
+		let r = feasible(sc, q, from, need, if node == VP { len_left } else { len_left - 1 }, visited, budget, trail);
 		visited.pop();
 		match r {
 			Some(true) => {
@@ -439,10 +660,13 @@ fn feasible(sc: &Scenario, q: &Query, node: usize, amt: u64, len_left: usize, vi
 
 /// Plain reachability payer -> payee (used in the slack regime where every edge has ample limits).
 fn reachable(sc: &Scenario, q: &Query) -> bool {
-	let mut seen = vec![q.payee];
-	let mut stack = vec![q.payee];
+	let mut seen = vec![q.target()];
+	let mut stack = vec![q.target()];
 	while let Some(node) = stack.pop() {
-		for (from, _, _, _, _) in edges_into(sc, q, node) {
+		for (from, _, max, min, _) in edges_into(sc, q, node) {
+			if node == VP && (q.amt > max || q.amt < min) {
+				continue; // a blinded path that cannot carry the amount in one part
+			}
 			if from == q.payer {
 				return true;
 			}
@@ -521,7 +745,7 @@ fn main() {
 			let fail_at = rng.next();
 			if let Some(route) = route {
 				if want_sample {
-					rep.sample(Json::obj().set("query", q.describe(&sc, gi)).set("query_index", qi).set("paths", Json::Arr(route.paths.iter().map(|p| Json::Arr(p.hops.iter().map(|h| Json::obj().set("scid", h.short_channel_id).set("fee_msat", h.fee_msat).set("cltv_delta", h.cltv_expiry_delta)).collect())).collect())));
+					rep.sample(Json::obj().set("query", q.describe(&sc, gi)).set("query_index", qi).set("paths", Json::Arr(route.paths.iter().map(|p| Json::Arr(p.hops.iter().map(|h| Json::obj().set("scid", h.short_channel_id).set("fee_msat", h.fee_msat).set("cltv_delta", h.cltv_expiry_delta)).collect())).collect())).set("blinded_tails", Json::Arr(route.paths.iter().map(|p| match &p.blinded_tail { Some(t) => Json::obj().set("blinded_hops", t.hops.len() as u64).set("final_value_msat", t.final_value_msat).set("excess_final_cltv_expiry_delta", t.excess_final_cltv_expiry_delta), None => Json::obj() }).collect())));
 				}
 				// feed scorer / in-flight state so that later queries see non-trivial scorer states
 				if feed {
@@ -581,19 +805,35 @@ fn run_query(ctx: &Ctx, rep: &mut Report, sc: &Scenario, q: &Query, graph: &Netw
 				eprintln!("  => Err({})", e);
 			}
 			let fixed_scorer = q.scorer_mode <= 1;
-			if sc.slack {
+			// documented refusal: one-hop blinded paths (introduction node = recipient) naming different nodes
+			let mut one_hop_intros: Vec<usize> = q.blinded.iter().filter(|b| b.one_hop()).map(|b| b.intro).collect();
+			one_hop_intros.sort();
+			one_hop_intros.dedup();
+			if one_hop_intros.len() > 1 {
+				rep.count("refusals_one_hop_blinded_paths_disagree");
+			} else if sc.slack {
 				rep.count("completeness_slack_evaluated");
+				if !q.blinded.is_empty() {
+					rep.count("completeness_blinded_evaluated");
+				}
 				if reachable(sc, q) {
-					ctx.violate(rep, "V6-completeness-slack", "find_route failed although the payee is reachable over channels with ample limits and no limit is binding", sc, q, format!("err={}", e));
+					let sig = if q.blinded.is_empty() { "find_route failed although the payee is reachable over channels with ample limits and no limit is binding" } else { "find_route failed although a blinded path's introduction node is reachable over channels with ample limits and no limit is binding" };
+					ctx.violate(rep, "V6-completeness-slack", sig, sc, q, format!("err={}", e));
 				} else {
 					rep.count("completeness_slack_confirmed_unreachable");
+					if !q.blinded.is_empty() {
+						rep.count("completeness_blinded_confirmed_unreachable");
+					}
 				}
 			} else if fixed_scorer && rp.max_total_routing_fee_msat.is_none() && rp.payment_params.max_total_cltv_expiry_delta >= 1008 {
 				let mut budget = 200_000u64;
 				let mut trail = vec![];
 				let maxlen = (rp.payment_params.max_path_length as usize).min(19);
 				rep.count("completeness_general_evaluated");
-				match feasible(sc, q, q.payee, q.amt, maxlen, &mut vec![q.payee], &mut budget, &mut trail) {
+				if !q.blinded.is_empty() {
+					rep.count("completeness_general_blinded_evaluated");
+				}
+				match feasible(sc, q, q.target(), q.amt, maxlen, &mut vec![q.target()], &mut budget, &mut trail) {
 					Some(true) => {
 						rep.count("completeness_general_router_failed_with_feasible_path");
 						if let Some(name) = pinned {
@@ -615,8 +855,32 @@ fn run_query(ctx: &Ctx, rep: &mut Report, sc: &Scenario, q: &Query, graph: &Netw
 			if sc.slack {
 				rep.count("routes_slack_regime");
 			}
+			if ctx.args.flag("trace") {
+				for (pi, p) in route.paths.iter().enumerate() {
+					eprintln!("  => path {}: {}{}", pi, p.hops.iter().map(|h| format!("-[{} fee {} cltv {}]->{} ", h.short_channel_id, h.fee_msat, h.cltv_expiry_delta, keys.iter().position(|k| *k == h.pubkey).map(|i| i as i64).unwrap_or(-1))).collect::<String>(), p.blinded_tail.as_ref().map(|t| format!("+ blinded tail of {} hops, final value {}, excess cltv {}", t.hops.len(), t.final_value_msat, t.excess_final_cltv_expiry_delta)).unwrap_or_default());
+				}
+			}
+			if !q.blinded.is_empty() {
+				rep.count("routes_to_blinded_payees");
+				if sc.slack {
+					rep.count("routes_to_blinded_payees_slack_regime");
+				}
+				if q.blinded.iter().any(|b| b.intro == q.payer) {
+					rep.count("payer_is_introduction_node");
+				}
+				if q.blinded.iter().enumerate().any(|(i, a)| q.blinded.iter().skip(i + 1).any(|b| b.intro == a.intro)) {
+					rep.count("routes_with_shared_introduction_node_offered");
+				}
+			}
+			if q.hints.iter().any(|h| h.len() > 1) {
+				rep.count("routes_with_multi_hop_hints_offered");
+			}
 			validate(ctx, rep, sc, q, &route, &rp);
 			let mut h = Fnv::new();
+			h.u64(q.blinded.len() as u64).u64(q.hints.iter().map(|x| x.len()).max().unwrap_or(0) as u64).u64(q.failed_blinded.is_empty() as u64).u64(q.excluded.is_empty() as u64);
+			for p in route.paths.iter() {
+				h.u64(p.blinded_tail.as_ref().map(|t| t.hops.len() as u64).unwrap_or(0));
+			}
 			h.u64(route.paths.len() as u64).u64(q.mpp as u64).u64(q.first.is_some() as u64).u64(q.hints.len() as u64).u64(q.fee_limit.map(|f| f.is_some() as u64 + 1).unwrap_or(0)).u64(q.scorer_mode).u64(q.amt.ilog10() as u64).u64(sc.slack as u64);
 			for p in route.paths.iter() {
 				h.u64(p.hops.len() as u64);
@@ -643,44 +907,107 @@ fn validate(ctx: &Ctx, rep: &mut Report, sc: &Scenario, q: &Query, route: &Route
 	if route.paths.len() > pp.max_path_count as usize {
 		ctx.violate(rep, "V1-path-count", "more paths than max_path_count", sc, q, format!("paths={}", route.paths.len()));
 	}
-	let mut used: HashMap<(u64, usize), (u64, u64)> = HashMap::new(); // (scid, dir) -> (amount, hard max)
+	let blinded_payee = !q.blinded.is_empty();
+	let bpaths: Vec<BlindedPaymentPath> = q.blinded.iter().map(|b| blinded_path(b, &keys)).collect();
+	// (kind, scid, dir) -> (amount, hard max); kind 0 = announced channel, 1 = route hint, 2 = payer's first hop
+	let mut used: HashMap<(u8, u64, usize), (u64, u64)> = HashMap::new();
+	let mut blinded_used: BTreeMap<usize, (u64, u64)> = BTreeMap::new(); // offered blinded path -> (sum of final values, parts)
 	let mut total = 0u64;
 	let mut total_fee = 0u64;
 	let mut minpart = u64::MAX;
-	let delivered_total: u64 = route.paths.iter().map(|p| p.hops.last().map(|h| h.fee_msat).unwrap_or(0)).sum();
+	let fin_of = |p: &lightning::routing::router::Path| match &p.blinded_tail {
+		Some(t) => t.final_value_msat,
+		None => p.hops.last().map(|h| h.fee_msat).unwrap_or(0),
+	};
+	let delivered_total: u64 = route.paths.iter().map(fin_of).fold(0u64, |a, b| a.saturating_add(b));
 	let raised_total = delivered_total.saturating_sub(amt);
 	for path in route.paths.iter() {
 		rep.count("paths");
-		if path.blinded_tail.is_some() {
+		let tail = path.blinded_tail.as_ref();
+		if tail.is_some() && !blinded_payee {
 			ctx.violate(rep, "V2-blinded", "blinded tail although payee is not blinded", sc, q, String::new());
 			return;
 		}
-		if path.hops.is_empty() {
-			ctx.violate(rep, "V2-empty-path", "empty path", sc, q, String::new());
+		if tail.is_none() && blinded_payee {
+			ctx.violate(rep, "V2-blinded-missing", "path without a blinded tail although the payee is blinded", sc, q, String::new());
 			return;
+		}
+		// the tail must be one of the blinded paths the payee supplied
+		let mut spec_idx = None;
+		if let Some(t) = tail {
+			spec_idx = bpaths.iter().position(|b| b.blinding_point() == t.blinding_point && b.blinded_hops() == &t.hops[..]);
+			if spec_idx.is_none() {
+				ctx.violate(rep, "V2-blinded-tail", "blinded tail is none of the supplied blinded paths", sc, q, String::new());
+				return;
+			}
+			if !t.trampoline_hops.is_empty() {
+				ctx.violate(rep, "V2-blinded-tail", "blinded tail with trampoline hops that nobody asked for", sc, q, String::new());
+				return;
+			}
+		}
+		let spec = spec_idx.map(|i| &q.blinded[i]);
+		if path.hops.is_empty() {
+			// only legitimate when the payer itself is the tail's introduction node (the library never does this)
+			if spec.map(|s| s.intro == q.payer).unwrap_or(false) {
+				rep.count("paths_starting_in_the_blinded_tail");
+			} else {
+				ctx.violate(rep, "V2-empty-path", "empty path", sc, q, String::new());
+				return;
+			}
 		}
 		if path.hops.len() > pp.max_path_length as usize {
-			ctx.violate(rep, "V1-path-length", "path longer than max_path_length", sc, q, format!("len={}", path.hops.len()));
+			ctx.violate(rep, "V1-path-length", if tail.is_some() { "path to a blinded payee has more unblinded hops than max_path_length" } else { "path longer than max_path_length" }, sc, q, format!("len={}", path.hops.len()));
 		}
-		let last = path.hops.len() - 1;
-		let fin = path.hops[last].fee_msat;
-		total += fin;
+		let fin = fin_of(path);
+		total = total.saturating_add(fin);
 		minpart = minpart.min(fin);
-		if path.hops[last].pubkey != keys[q.payee] {
-			ctx.violate(rep, "V2-endpoint", "path does not end at the payee", sc, q, String::new());
-			return;
+		let nh = path.hops.len();
+		// fee paid for the use of the whole blinded path: carried by the last unblinded hop
+		let blinded_fee_paid = if tail.is_some() { path.hops.last().map(|h| h.fee_msat).unwrap_or(0) } else { 0 };
+		if nh > 0 {
+			let want_end = match spec {
+				Some(s) => keys[s.intro],
+				None => keys[q.payee],
+			};
+			if path.hops[nh - 1].pubkey != want_end {
+				if spec.is_some() {
+					ctx.violate(rep, "V2-blinded-intro", "unblinded part of the path does not end at the blinded tail's introduction node", sc, q, String::new());
+				} else {
+					ctx.violate(rep, "V2-endpoint", "path does not end at the payee", sc, q, String::new());
+				}
+				return;
+			}
 		}
-		let mut amts = vec![0u64; path.hops.len()];
-		amts[last] = fin;
-		for i in (0..last).rev() {
-			amts[i] = amts[i + 1] + path.hops[i].fee_msat;
-			total_fee += path.hops[i].fee_msat;
+		let mut amts = vec![0u64; nh];
+		if nh > 0 {
+			let last = nh - 1;
+			amts[last] = fin.saturating_add(blinded_fee_paid);
+			total_fee = total_fee.saturating_add(blinded_fee_paid);
+			for i in (0..last).rev() {
+				amts[i] = amts[i + 1].saturating_add(path.hops[i].fee_msat);
+				total_fee = total_fee.saturating_add(path.hops[i].fee_msat);
+			}
 		}
-		let cltv_total: u32 = path.hops.iter().map(|h| h.cltv_expiry_delta).sum();
+		let spec_cltv = spec.map(|s| s.pol().cltv as u32).unwrap_or(0);
+		let excess = tail.map(|t| t.excess_final_cltv_expiry_delta).unwrap_or(0);
+		let cltv_total: u32 = match tail {
+			// unblinded hops + the blinded path's own delta + the excess final delta (whether or not the last
+			// hop's field carries them)
+			Some(_) if nh > 0 => path.hops[..nh - 1].iter().map(|h| h.cltv_expiry_delta).fold(0u32, |a, b| a.saturating_add(b)).saturating_add(path.hops[nh - 1].cltv_expiry_delta.max(spec_cltv.saturating_add(excess))),
+			Some(_) => spec_cltv.saturating_add(excess),
+			None => path.hops.iter().map(|h| h.cltv_expiry_delta).fold(0u32, |a, b| a.saturating_add(b)),
+		};
+		if tail.is_some() {
+			rep.count("blinded_cltv_total_evaluations");
+			if q.max_total_cltv.is_some() {
+				rep.count("blinded_cltv_total_evaluations_with_custom_limit");
+			}
+		}
 		if cltv_total > pp.max_total_cltv_expiry_delta {
-			ctx.violate(rep, "V1-cltv", "total CLTV delta above max_total_cltv_expiry_delta", sc, q, format!("total={}", cltv_total));
+			ctx.violate(rep, "V1-cltv", if tail.is_some() { "total CLTV delta (unblinded hops plus blinded path plus excess) above max_total_cltv_expiry_delta" } else { "total CLTV delta above max_total_cltv_expiry_delta" }, sc, q, format!("total={}", cltv_total));
 		}
 		let mut cur = q.payer;
+		let mut hint_hops_of: Vec<Option<usize>> = vec![None; nh]; // which multi-hop hint a hop belongs to
 		for (i, hop) in path.hops.iter().enumerate() {
 			rep.count("hops");
 			let to = match keys.iter().position(|k| *k == hop.pubkey) {
@@ -690,10 +1017,18 @@ fn validate(ctx: &Ctx, rep: &mut Report, sc: &Scenario, q: &Query, route: &Route
 					return;
 				},
 			};
+			if !q.excluded.is_empty() {
+				rep.count("previously_failed_evaluations");
+			}
 			if q.excluded.contains(&hop.short_channel_id) {
 				ctx.violate(rep, "V1-excluded", "route uses a previously failed channel", sc, q, format!("scid={}", hop.short_channel_id));
 			}
-			let (pol, hard_max, dir): (Option<Pol>, u64, usize);
+			let (pol, hard_max, dir, kind): (Option<Pol>, u64, usize, u8);
+			// readings of this hop: a hint hop src -> dst with this scid, and/or an announced channel between
+			// the two nodes with this scid
+			let hint_named = q.hints.iter().any(|h| h.iter().any(|x| x.scid == hop.short_channel_id));
+			let hint_reading = q.hints.iter().enumerate().flat_map(|(hi, h)| h.iter().map(move |x| (hi, h.len(), x))).find(|(_, _, x)| x.scid == hop.short_channel_id && x.src == cur && x.dst == to);
+			let public_reading = sc.chans.get(&hop.short_channel_id).and_then(|c| if c.a == cur && c.b == to { Some((c, 0usize)) } else if c.b == cur && c.a == to { Some((c, 1usize)) } else { None });
 			if let Some(fh) = q.first.as_ref().and_then(|f| if i == 0 { f.iter().find(|x| x.scid == hop.short_channel_id) } else { None }) {
 				if fh.peer != to {
 					ctx.violate(rep, "V2-first-hop", "first hop channel does not lead to the hop's node", sc, q, format!("scid={}", fh.scid));
@@ -705,29 +1040,71 @@ fn validate(ctx: &Ctx, rep: &mut Report, sc: &Scenario, q: &Query, route: &Route
 				pol = None;
 				hard_max = fh.limit;
 				dir = 0;
+				kind = 2;
 				rep.count("hops_first_hop_details");
-			} else if let Some(hh) = q.hints.iter().flat_map(|h| h.iter()).find(|x| x.scid == hop.short_channel_id) {
-				if hh.src != cur || hh.dst != to {
-					ctx.violate(rep, "V2-hint", "hint channel used between the wrong nodes", sc, q, format!("scid={}", hh.scid));
-					return;
+				if to >= sc.n_public {
+					rep.count("hops_first_hop_to_unannounced_node");
 				}
+			} else if let (Some((hi, hlen, hh)), Some((c, d))) = (hint_reading, public_reading.filter(|(c, d)| c.pol[*d].is_some() && c.pol[1 - *d].is_some())) {
+				// A hint hop naming an announced, usable channel between the same two nodes. The library takes
+				// the announced policy and does not look at the disabled flag; the invoice vouches for the
+				// channel. The property does not say which of the two advertised policies counts: accept
+				// either (the weaker demand of the two on every item).
+				let pp_ = c.pol[d].unwrap();
+				let pub_max = pp_.max.min(c.cap_sat.map(|s| s * 1000).unwrap_or(u64::MAX));
+				pol = Some(Pol { enabled: true, cltv: hh.pol.cltv.min(pp_.cltv), min: hh.pol.min.min(pp_.min), max: hh.pol.max.max(pub_max), base: 0, prop: 0 });
+				// fee: the smaller of the two demands at this amount (base/prop of `pol` are not used below)
+				hard_max = hh.pol.max.max(pub_max);
+				dir = d;
+				kind = 0;
+				rep.count("hops_route_hint");
+				rep.count("hops_hint_naming_announced_channel_both_readings");
+				if !pp_.enabled {
+					rep.count("hops_hint_naming_announced_channel_disabled_direction_used");
+				}
+				if hlen > 1 {
+					hint_hops_of[i] = Some(hi);
+				}
+				if i > 0 {
+					let need = fee_for(&hh.pol, amts[i]).min(fee_for(&pp_, amts[i]));
+					let paid = path.hops[i - 1].fee_msat;
+					rep.count("fee_rule_evaluations");
+					if paid < need {
+						ctx.violate(rep, "V4-fee", "forwarding node paid less than both the hinted and the announced policy fee", sc, q, format!("hop={} paid={} policy_fee={} forwarded={}", i, paid, need, amts[i]));
+					}
+				}
+			} else if let Some((hi, hlen, hh)) = hint_reading {
 				pol = Some(hh.pol);
 				hard_max = hh.pol.max;
 				dir = 0;
+				kind = 1;
 				rep.count("hops_route_hint");
-			} else if let Some(c) = sc.chans.get(&hop.short_channel_id) {
-				if i == 0 && q.first.is_some() {
-					ctx.violate(rep, "V2-first-hop", "first hops were supplied but the route leaves the payer over a graph channel", sc, q, format!("scid={}", hop.short_channel_id));
-					return;
+				if hlen > 1 {
+					hint_hops_of[i] = Some(hi);
+					rep.count("hops_of_multi_hop_hints");
 				}
-				dir = if c.a == cur && c.b == to {
-					0
-				} else if c.b == cur && c.a == to {
-					1
-				} else {
-					ctx.violate(rep, "V2-connectivity", "hop does not connect the previous node to the next over that channel", sc, q, format!("hop={} scid={}", i, hop.short_channel_id));
-					return;
-				};
+				if hh.src == q.payer {
+					rep.count("hops_hint_starting_at_payer");
+				}
+				if sc.chans.contains_key(&hh.scid) {
+					rep.count("hops_hint_naming_announced_channel_hint_reading");
+				}
+			} else if let Some((c, d)) = public_reading {
+				if i == 0 && q.first.is_some() {
+					if hint_named {
+						// a route hint between other nodes names this scid (see the report of this check)
+						rep.count("hops_announced_channel_from_payer_despite_first_hops_named_by_unrelated_hint");
+						if !ctx.args.flag("hint_alias_observe") {
+							ctx.violate(rep, "V2-first-hop", "first hops were supplied but the route leaves the payer over an announced channel whose scid a route hint between other nodes names", sc, q, format!("scid={}", hop.short_channel_id));
+							return;
+						}
+					} else {
+						ctx.violate(rep, "V2-first-hop", "first hops were supplied but the route leaves the payer over a graph channel", sc, q, format!("scid={}", hop.short_channel_id));
+						return;
+					}
+				}
+				dir = d;
+				kind = 0;
 				let p = match c.pol[dir] {
 					Some(p) => p,
 					None => {
@@ -739,10 +1116,27 @@ fn validate(ctx: &Ctx, rep: &mut Report, sc: &Scenario, q: &Query, route: &Route
 					ctx.violate(rep, "V2-no-update", "hop uses a channel for which one direction has no channel_update (not usable)", sc, q, format!("scid={}", hop.short_channel_id));
 				}
 				if !p.enabled {
-					ctx.violate(rep, "V2-disabled", "hop uses a disabled direction", sc, q, format!("scid={}", hop.short_channel_id));
+					if hint_named {
+						// a route hint (between other nodes) names this scid: see the report of this check
+						rep.count("hops_disabled_announced_channel_named_by_unrelated_hint");
+						if !ctx.args.flag("hint_alias_observe") {
+							ctx.violate(rep, "V2-disabled", "hop uses a disabled direction of an announced channel whose scid a route hint between other nodes names", sc, q, format!("scid={}", hop.short_channel_id));
+						}
+					} else {
+						ctx.violate(rep, "V2-disabled", "hop uses a disabled direction", sc, q, format!("scid={}", hop.short_channel_id));
+					}
+				}
+				if hint_named {
+					rep.count("hops_hint_naming_announced_channel_public_reading");
 				}
 				pol = Some(p);
 				hard_max = p.max.min(c.cap_sat.map(|s| s * 1000).unwrap_or(u64::MAX));
+			} else if hint_named {
+				ctx.violate(rep, "V2-hint", "hint channel used between the wrong nodes", sc, q, format!("scid={}", hop.short_channel_id));
+				return;
+			} else if sc.chans.contains_key(&hop.short_channel_id) {
+				ctx.violate(rep, "V2-connectivity", "hop does not connect the previous node to the next over that channel", sc, q, format!("hop={} scid={}", i, hop.short_channel_id));
+				return;
 			} else {
 				ctx.violate(rep, "V2-unknown-channel", "hop over a channel that exists nowhere", sc, q, format!("scid={}", hop.short_channel_id));
 				return;
@@ -752,48 +1146,148 @@ fn validate(ctx: &Ctx, rep: &mut Report, sc: &Scenario, q: &Query, route: &Route
 					ctx.violate(rep, "V3-min", "hop carries less than the channel's htlc_minimum_msat", sc, q, format!("hop={} amt={} min={}", i, amts[i], p.min));
 				}
 				if i > 0 {
-					let need = fee_for(&p, amts[i]);
-					let paid = path.hops[i - 1].fee_msat;
-					rep.count("fee_rule_evaluations");
-					if paid < need {
-						rep.count("underpaid_hops");
-						let sig = if raised_total > 0 { "forwarding node paid less than its policy fee on a route whose final value was raised above the requested amount" } else { "forwarding node paid less than its policy fee" };
-						ctx.violate(rep, "V4-fee", sig, sc, q, format!("hop={} paid={} policy_fee={} forwarded={} base={} prop={}", i, paid, need, amts[i], p.base, p.prop));
-					} else if paid > need {
-						rep.count("overpaid_hops");
+					let both = hint_reading.is_some() && kind == 0;
+					if !both {
+						let need = fee_for(&p, amts[i]);
+						let paid = path.hops[i - 1].fee_msat;
+						rep.count("fee_rule_evaluations");
+						if hint_hops_of[i].is_some() {
+							rep.count("fee_rule_evaluations_multi_hop_hints");
+						}
+						if paid < need {
+							rep.count("underpaid_hops");
+							let sig = if raised_total > 0 { "forwarding node paid less than its policy fee on a route whose final value was raised above the requested amount" } else { "forwarding node paid less than its policy fee" };
+							ctx.violate(rep, "V4-fee", sig, sc, q, format!("hop={} paid={} policy_fee={} forwarded={} base={} prop={}", i, paid, need, amts[i], p.base, p.prop));
+						} else if paid > need {
+							rep.count("overpaid_hops");
+						}
 					}
 					if path.hops[i - 1].cltv_expiry_delta < p.cltv as u32 {
 						ctx.violate(rep, "V4-cltv", "forwarding node given less than its cltv_expiry_delta", sc, q, format!("hop={} got={} policy={}", i, path.hops[i - 1].cltv_expiry_delta, p.cltv));
 					}
 				}
 			}
-			let e = used.entry((hop.short_channel_id, dir)).or_insert((0, hard_max));
-			e.0 += amts[i];
+			let e = used.entry((kind, hop.short_channel_id, dir)).or_insert((0, hard_max));
+			e.0 = e.0.saturating_add(amts[i]);
 			cur = to;
 		}
-		if path.hops[last].cltv_expiry_delta < q.final_cltv {
-			ctx.violate(rep, "V4-final-cltv", "final hop CLTV delta below the payee's final_cltv_expiry_delta", sc, q, String::new());
+		if (1..nh).any(|i| hint_hops_of[i].is_some() && hint_hops_of[i] == hint_hops_of[i - 1]) {
+			rep.count("multi_hop_hints_used"); // at least two consecutive hops of one hint were travelled
+		}
+		match (tail, spec_idx) {
+			(Some(_), Some(si)) => {
+				let sp = &q.blinded[si];
+				rep.count("blinded_tails_validated");
+				if !q.failed_blinded.is_empty() {
+					rep.count("previously_failed_blinded_evaluations");
+				}
+				if q.failed_blinded.contains(&(si as u64)) {
+					ctx.violate(rep, "V1-failed-blinded", "route uses a previously failed blinded path", sc, q, format!("idx={}", si));
+				}
+				if nh == 1 && q.first.as_ref().map(|f| f.iter().any(|x| x.scid == path.hops[0].short_channel_id)).unwrap_or(false) {
+					rep.count("blinded_intro_directly_behind_first_hop");
+				}
+				if q.blinded.iter().enumerate().any(|(j, o)| j != si && o.intro == sp.intro) {
+					rep.count("blinded_tails_with_shared_introduction_node");
+				}
+				if nh > 0 && path.hops[nh - 1].cltv_expiry_delta < spec_cltv.saturating_add(excess) {
+					ctx.violate(rep, "V4-blinded-cltv", "last unblinded hop's CLTV delta below the blinded path's cltv_expiry_delta plus the excess final delta", sc, q, format!("got={} blinded={} excess={}", path.hops[nh - 1].cltv_expiry_delta, spec_cltv, excess));
+				}
+				let e = blinded_used.entry(si).or_insert((0, 0));
+				e.0 = e.0.saturating_add(fin);
+				e.1 += 1;
+				if sp.one_hop() {
+					// the introduction node is the recipient: nobody forwards inside the blinded path, the
+					// payinfo is documented to be ignored. Observations only.
+					rep.count("one_hop_blinded_paths");
+					if fin < sp.min || fin > sp.max {
+						rep.count("one_hop_blinded_payinfo_limits_not_applied_observed");
+					}
+					if blinded_fee_paid < sp.base as u64 + ((fin as u128 * sp.prop as u128) / 1_000_000) as u64 {
+						rep.count("one_hop_blinded_payinfo_fee_not_paid_observed");
+					}
+				} else {
+					rep.count("multi_hop_blinded_paths");
+					let p = sp.pol();
+					if fin < p.min {
+						ctx.violate(rep, "V3-blinded-min", "blinded path carries less than its payinfo htlc_minimum_msat", sc, q, format!("final_value={} min={}", fin, p.min));
+					}
+					if nh > 0 {
+						// aggregate fee of the blinded path on the amount the recipient gets, rounded as the library's
+						// compute_fees does (floor); at least that much must reach the introduction node on top
+						let need = fee_for(&p, fin);
+						rep.count("blinded_fee_rule_evaluations");
+						if p.base != 0 || p.prop != 0 {
+							rep.count("blinded_fee_rule_evaluations_nonzero_fee");
+						}
+						if blinded_fee_paid < need {
+							let sig = if raised_total > 0 { "introduction node receives less than final value plus the blinded path's fee on a route whose final value was raised above the requested amount" } else { "introduction node receives less than final value plus the blinded path's fee" };
+							ctx.violate(rep, "V4-blinded-fee", sig, sc, q, format!("paid={} payinfo_fee={} final_value={} base={} prop={}", blinded_fee_paid, need, fin, p.base, p.prop));
+						} else if blinded_fee_paid > need {
+							rep.count("overpaid_blinded_paths");
+						}
+						let ceil = p.base as u64 + ((fin as u128 * p.prop as u128 + 999_999) / 1_000_000) as u64;
+						if blinded_fee_paid < ceil {
+							rep.count("blinded_fee_below_rounded_up_fee_observed");
+						}
+					}
+				}
+			},
+			_ => {
+				if nh > 0 && path.hops[nh - 1].cltv_expiry_delta < q.final_cltv {
+					ctx.violate(rep, "V4-final-cltv", "final hop CLTV delta below the payee's final_cltv_expiry_delta", sc, q, String::new());
+				}
+			},
 		}
 	}
-	for ((scid, dir), (amt_used, hard_max)) in used.iter() {
+	for ((kind, scid, dir), (amt_used, hard_max)) in used.iter() {
 		rep.count("joint_max_rule_evaluations");
 		if *amt_used > *hard_max {
 			// only legitimate when explained by amounts raised to meet a later minimum (reported as fees)
 			if raised_total == 0 || *amt_used > hard_max.saturating_add(raised_total).saturating_add(total_fee) {
-				ctx.violate(rep, "V3-max", "channel carries more than min(htlc_maximum, capacity) counted jointly over the paths", sc, q, format!("scid={} dir={} carried={} max={}", scid, dir, amt_used, hard_max));
+				ctx.violate(rep, "V3-max", "channel carries more than min(htlc_maximum, capacity) counted jointly over the paths", sc, q, format!("scid={} dir={} kind={} carried={} max={}", scid, dir, kind, amt_used, hard_max));
 			} else {
 				rep.count("joint_max_exceeded_within_raised_slack");
 			}
 		}
+	}
+	for (si, (sum, parts)) in blinded_used.iter() {
+		let sp = &q.blinded[*si];
+		if sp.one_hop() {
+			continue;
+		}
+		rep.count("blinded_joint_maximum_evaluations");
+		if *parts > 1 {
+			rep.count("blinded_joint_maximum_evaluations_several_parts");
+		}
+		if *sum > sp.max {
+			if raised_total == 0 || *sum > sp.max.saturating_add(raised_total) {
+				ctx.violate(rep, "V3-blinded-max", "blinded path carries more than its payinfo htlc_maximum_msat counted jointly over the paths using it", sc, q, format!("idx={} carried={} max={} parts={}", si, sum, sp.max, parts));
+			} else {
+				rep.count("blinded_joint_max_exceeded_within_raised_slack");
+			}
+		}
+	}
+	if blinded_used.len() > 1 {
+		rep.count("routes_over_several_blinded_paths");
 	}
 	if total < amt {
 		ctx.violate(rep, "V5-short", "paths deliver less than the requested amount", sc, q, format!("delivered={}", total));
 	}
 	if raised_total > 0 {
 		rep.count("routes_with_raised_final_value");
+		if blinded_payee {
+			rep.count("routes_with_raised_final_value_blinded");
+		}
 	}
 	if route.paths.len() > 1 && total - minpart >= amt {
 		ctx.violate(rep, "V5-superfluous", "a part could be removed and the rest still delivers the requested amount", sc, q, format!("delivered={} smallest_part={}", total, minpart));
+	}
+	// the route's own fee report: hop fees (incl. blinded path fees) plus what is delivered above the request
+	rep.count("total_fee_report_evaluations");
+	let reported = route.get_total_fees();
+	if reported != total_fee.saturating_add(raised_total) {
+		ctx.violate(rep, "V7-total-fees", "Route::get_total_fees differs from the hop fees plus the amount delivered above the request", sc, q, format!("reported={} hop_fees={} raised={}", reported, total_fee, raised_total));
 	}
 	if let Some(mx) = rp.max_total_routing_fee_msat {
 		if total_fee > mx {
@@ -842,9 +1336,16 @@ fn witness_text(sc: &Scenario, q: &Query) -> String {
 		}
 	}
 	for h in q.hints.iter() {
-		for x in h {
-			s += &format!("hint {} {} {} {}\n", x.scid, x.src, x.dst, pol_text(&Some(x.pol)));
+		// "hint" starts a new hint, "hinthop" appends a further hop (towards the payee) to it
+		for (i, x) in h.iter().enumerate() {
+			s += &format!("{} {} {} {} {}\n", if i == 0 { "hint" } else { "hinthop" }, x.scid, x.src, x.dst, pol_text(&Some(x.pol)));
 		}
+	}
+	for b in q.blinded.iter() {
+		s += &format!("blinded {} {} {} {} {} {} {} {}\n", b.intro, b.n_hops, b.base, b.prop, b.cltv, b.min, b.max, b.id);
+	}
+	for e in q.failed_blinded.iter() {
+		s += &format!("failedblinded {}\n", e);
 	}
 	for e in q.excluded.iter() {
 		s += &format!("excluded {}\n", e);
@@ -853,7 +1354,7 @@ fn witness_text(sc: &Scenario, q: &Query) -> String {
 }
 fn parse_witness(text: &str) -> (Scenario, Query) {
 	let mut sc = Scenario { key_seed: 1, n_public: 0, n_extra: 0, slack: false, chans: BTreeMap::new() };
-	let mut q = Query { payer: 0, payee: 0, amt: 0, mpp: false, first: None, hints: vec![], final_cltv: 18, max_path_count: None, max_path_length: None, max_total_cltv: None, saturation: None, excluded: vec![], fee_limit: None, scorer_mode: 0, fixed_penalty: 0, seed_bytes: [0; 32] };
+	let mut q = Query { payer: 0, payee: 0, amt: 0, mpp: false, first: None, hints: vec![], blinded: vec![], failed_blinded: vec![], final_cltv: 18, max_path_count: None, max_path_length: None, max_total_cltv: None, saturation: None, excluded: vec![], fee_limit: None, scorer_mode: 0, fixed_penalty: 0, seed_bytes: [0; 32] };
 	let o = |s: &str| -> Option<u64> {
 		if s == "-" {
 			None
@@ -898,6 +1399,9 @@ fn parse_witness(text: &str) -> (Scenario, Query) {
 			"firsthops" => q.first = Some(vec![]),
 			"first" => q.first.as_mut().unwrap().push(FirstHop { scid: t[1].parse().unwrap(), peer: t[2].parse().unwrap(), limit: t[3].parse().unwrap(), min: t[4].parse().unwrap() }),
 			"hint" => q.hints.push(vec![HintHop { scid: t[1].parse().unwrap(), src: t[2].parse().unwrap(), dst: t[3].parse().unwrap(), pol: pol_parse(t[4]).unwrap() }]),
+			"hinthop" => q.hints.last_mut().expect("hinthop after hint").push(HintHop { scid: t[1].parse().unwrap(), src: t[2].parse().unwrap(), dst: t[3].parse().unwrap(), pol: pol_parse(t[4]).unwrap() }),
+			"blinded" => q.blinded.push(BlindedSpec { intro: t[1].parse().unwrap(), n_hops: t[2].parse().unwrap(), base: t[3].parse().unwrap(), prop: t[4].parse().unwrap(), cltv: t[5].parse().unwrap(), min: t[6].parse().unwrap(), max: t[7].parse().unwrap(), id: t[8].parse().unwrap() }),
+			"failedblinded" => q.failed_blinded.push(t[1].parse().unwrap()),
 			"excluded" => q.excluded.push(t[1].parse().unwrap()),
 			_ => {},
 		}
